@@ -157,7 +157,18 @@ def gen_engine(fl, rng):
         terms = []
         for k in range(rng.choice([1, 2, 3])):
             tn = ident(rng, f"t{i}{k}")
-            terms.append(gen_discrete(fl, rng, tn, lo, hi, wild) if rng.random() < 0.12 else gen_shape(fl, rng, tn, lo, hi, wild))
+            c = rng.random()
+            if c < 0.08:  # terms that need the engine (reference set / formula parsed by Engine.__init__) also inside INPUT variables
+                cf = [float(any_finite(rng) if wild else rng.uniform(-1, 1)) for _ in range(n_in + 1)]
+                terms.append(assign(fl.Linear(tn, list(cf)), name=tn, coefficients=list(cf)))
+            elif c < 0.18:
+                formula = rng.choice(["x", "x * 0.5", f"{rng.choice(names_in)} / 4", f"abs(x) + {rng.choice(names_in)} * 0.125", "1 - x ^ 2"])
+                terms.append(assign(fl.Function(tn, formula), name=tn, formula=formula, variables={}))
+            elif c < 0.22:
+                cv = float(rng.uniform(0, 1))
+                terms.append(assign(fl.Constant(tn, cv), name=tn, value=cv))
+            else:
+                terms.append(gen_discrete(fl, rng, tn, lo, hi, wild) if rng.random() < 0.12 else gen_shape(fl, rng, tn, lo, hi, wild))
         vmin, vmax = (wild_float(rng, True), wild_float(rng, True)) if wild else (lo, hi)
         f = dict(name=names_in[i], description=rng.choice(DESCRIPTIONS), enabled=rng.random() > 0.1, minimum=float(vmin), maximum=float(vmax),
                  lock_range=rng.random() < 0.25, terms=terms)
@@ -255,6 +266,9 @@ def gen_engine(fl, rng):
     f = dict(name=ident(rng, rng.choice(["e", "Engine", "my_engine", "tipper2", "x9"])), description=rng.choice(DESCRIPTIONS),
              input_variables=inputs, output_variables=outputs, rule_blocks=blocks)
     engine = assign(fl.Engine(**f), **f)   # lists: the same list objects the constructor copied from; rules are loaded by the constructor
+    for v in engine.input_variables + engine.output_variables:  # references and formulas of the ORIGINAL do not rely on Engine.__init__
+        for t in v.terms:
+            t.update_reference(engine)
     rows = []
     for _ in range(8):
         row = []
@@ -670,6 +684,12 @@ def check_engine(fl, sk: Sink, engine, info, formatted_combo, alias_m):
             else:
                 sk.violation(f"pyrepr:engine-rebuild:{type(ex).__name__}", f"exported engine text does not evaluate ({alias!r}, {mode}, formatted={fmt}): {type(ex).__name__}: {str(ex)[:200]}", rp())
             continue
+        for v2 in e2.input_variables + e2.output_variables:
+            for t2 in v2.terms:
+                if isinstance(t2, (fl.Linear, fl.Function)) and t2.engine is not e2:
+                    sk.violation("pyrepr:term-engine-reference", f"{type(t2).__name__} term {v2.name}.{t2.name} of the rebuilt engine does not refer to it ({alias!r}, {mode})", rp())
+                if isinstance(t2, fl.Function) and not t2.is_loaded():
+                    sk.violation("pyrepr:function-not-loaded", f"Function term {v2.name}.{t2.name} of the rebuilt engine is not loaded ({alias!r}, {mode})", rp())
         d2 = val_lit(fl, e2)  # before the rebuilt engine is processed
         if mode == "repr" and not fmt:
             plain_dump[alias] = d2
